@@ -169,6 +169,44 @@ class Analyzer:
         t = f.unit.type(dd.get('ct'))
         return bool(dd.get('ptr')) and 'char' not in t or 'iterator<' in t or '_iterator' in t
 
+    def expr_root(self, f, e):
+        """like root_of_expr, with the member refinement of handle roots (lvl->t -> ('param', 0, 't'))"""
+        e = unwrap(e)
+        last_mem = None
+        depth = 0
+        while e is not None and depth < 30:
+            depth += 1
+            k = e['k']
+            if k == 'mem':
+                b = unwrap(e.get('b'))
+                if b is None or b['k'] == 'this':
+                    return ('this', e['n'])
+                last_mem = e['n']
+                e = b
+                # only the member selected directly on the handle counts
+                bb = b
+                while bb is not None and bb['k'] == 'un' and bb['op'] in ('->', '*'):
+                    bb = unwrap(bb['e'])
+                if bb is not None and bb['k'] == 'ref' and self.is_handle(f, bb['d']):
+                    r = self.root_of_expr(f, bb)
+                    return (r + (last_mem,)) if r is not None else None
+                continue
+            if k == 'ref':
+                return self.root_of_expr(f, e)
+            if k == 'idx':
+                e = unwrap(e['b'])
+            elif k == 'un' and e['op'] in ('*', '->', '&'):
+                e = unwrap(e['e'])
+            elif k == 'call' and e.get('obj') is not None and (e.get('m') in TRANSPARENT_METHODS or e.get('conv') or e.get('op') == '()'):
+                e = unwrap(e['obj'])
+            elif k in ('cast', 'defarg'):
+                e = unwrap(e['e'])
+            elif k == 'ctor' and len(e.get('a', [])) >= 1:
+                e = unwrap(e['a'][0])
+            else:
+                return self.root_of_expr(f, e)
+        return None
+
     # ------------------------------------------------------------ accesses
     def accesses(self, f):
         if hasattr(f, '_accesses'):
